@@ -232,6 +232,13 @@ def patch_equivalences(chk, root):
          ['T greedy x', 'T static x 3'], 'struct T { u32 n; u16 x[3]; };'),
         ('greedy then dynamic', head + '<member name="x" type="u16"><dimension size="2"/></member></struct></x>',
          ['T greedy x', 'T dynamic x n'], 'struct T { u32 n; u16 x<@n>; };'),
+        ('isVariableSize="false" is a fixed array (D90)', head + '<member name="x" type="u16"><dimension size="3" isVariableSize="false"/></member></struct></x>',
+         [], 'struct T { u32 n; u16 x[3]; };'),
+        ('shiftLeft / bitMaskOr in an array size (D98)', head + '<member name="x" type="u8"><dimension size="shiftLeft(1,2)"/></member><member name="y" type="u8"><dimension size="bitMaskOr(1,2)"/></member></struct></x>',
+         [], 'struct T { u32 n; u8 x[4]; u8 y[3]; };'),
+        ('patch file saved with a byte order mark (D93)', head + '<member name="x" type="u16"/></struct></x>', ['\ufeffT static x 3'], 'struct T { u32 n; u16 x[3]; };'),
+        ('enumerators sharing one value', '<x><enum name="E"><enum-member name="E_A" value="1"/><enum-member name="E_B" value="1"/></enum>'
+         '<struct name="T"><member name="e" type="E"/></struct></x>', [], 'enum E { E_A = 1, E_B = 1 };\nstruct T { E e; };'),
         ('size and size2 expressions (parenthesised product: fixed by 2757209)',
          '<x><constant name="K" value="3"/><struct name="T"><member name="n" type="u32"/><member name="x" type="u8"><dimension size="K+1" size2="2"/></member>'
          '<member name="y" type="u8"><dimension size="2" size2="K+1"/></member></struct></x>',
@@ -251,7 +258,8 @@ def patch_equivalences(chk, root):
             xn = res['x']
             xmod = py_impl.import_file(os.path.join(d, 'x.py'))
         except Exception as ex:  # noqa
-            chk.property_violation(casej, {'what': 'compilation / import failed: %s: %s' % (type(ex).__name__, str(ex)[:300])})
+            chk.property_violation(casej, {'what': 'compilation / import failed: %s: %s' % (type(ex).__name__, str(ex)[:300])},
+                                   lambda c, dt: 'D117' if c['rule'] == 'enumerators sharing one value' and 'Duplicate Enum value' in dt['what'] else None)
             continue
 
         def members(nodes):
